@@ -231,7 +231,11 @@ class C19(Prop):
                 cfg.setdefault('PLUGIN_OTELPLUGIN', 'False')
                 cfg.setdefault('PLUGIN_PROMETHEUSPLUGIN', 'False')
                 cfg.setdefault('PLUGIN_OTELMETRICS', 'False')
+                given = dict(cfg)
                 d = deep.start(cfg)
+                if cfg != given:
+                    # the dict is the application's own object: reading settings from it must not write into it
+                    obs['caller_dict_changed'] = sorted(set(cfg) ^ set(given)) or 'values'
                 sys.settrace(old[0])
                 threading.settrace(old[1])
                 obs['channel'] = made[-1] if made else None
@@ -294,6 +298,7 @@ class C19(Prop):
         if 'start' in oc:
             out.violate('setting given in code: start %s' % oc['start'], {'key': key, 'value': v})
             return out
+
         if 'start' in oe:
             out.violate('setting given in the environment: start %s' % oe['start'], {'key': key, 'value': v})
             return out
